@@ -4,11 +4,12 @@ import BU.Driver.Timelock
 import BU.Driver.Block
 import BU.Driver.Digest
 import BU.Driver.Taproot
+import BU.Driver.Keys
 /-! Compiled driver (`lean_exe budriver`): one request per line on stdin, one answer per line on
 stdout.  Imports Model/Spec/Crypto only — never `BU.Gen.*`, never Mathlib. -/
 open Driver
 
-def allOps : List (String × (Model.Tables → R String)) := wireOps ++ timelockOps ++ blockOps ++ digestOps ++ taprootOps
+def allOps : List (String × (Model.Tables → R String)) := wireOps ++ timelockOps ++ blockOps ++ digestOps ++ taprootOps ++ keyOps
 
 def handle (T : Model.Tables) (line : String) : Model.Tables × String :=
   match (line.splitOn " ").filter (· ≠ "") with
